@@ -379,6 +379,50 @@ def o7(W, ob):
     cx = W.ctx(f)
     acc = 2  # the `first_incorrect` parameter
     ds = cx.full_defs(acc)
+    if not ds:
+        # the same NULL-aware minimum written with iterators:
+        #   queues.iter().map(first_incorrect_frame).chain(once(seed)).filter(|f| f != NULL).min().unwrap_or(NULL)
+        good = False
+        why = 'no accumulator update and no Iterator::min chain found'
+        for t in find_min_chain(W, f):
+            ch = iter_chain(W, f, t)
+            segs = [x for x, _ in ch]
+            srcs = [term for seg, term in ch if seg in ('iter', 'into_iter', 'iter_mut')]
+            queues = bool(srcs) and srcs[0].args and srcs[0].args[0].is_place() and 'input_queues' in cx.ap_carry(srcs[0].args[0].place).s(f)
+            has_marker = has_seed = has_filter = False
+            for seg, term in ch:
+                if seg == 'map' and len(term.args) > 1:
+                    cl = closure_of_operand(W, f, term.args[1])
+                    if cl and cl[0] == 'fn' and cl[1].endswith('InputQueue::first_incorrect_frame'):
+                        has_marker = True
+                    if cl and cl[0] == 'closure' and 'first_incorrect_frame' in key(closure_return_expr(W, cl[1])):
+                        has_marker = True
+                if seg == 'chain' and len(term.args) > 1:
+                    for a in term.args:
+                        src = trace_back(W, f, a, strict=True)
+                        if src and src[0] == 'call' and last_seg(src[1].callee.best) == 'once' and src[1].args and key(cx.expr_operand(src[1].args[0])) == 'arg2':
+                            has_seed = True
+                if seg == 'filter' and len(term.args) > 1:
+                    cl = closure_of_operand(W, f, term.args[1])
+                    if cl and cl[0] == 'closure':
+                        from .sem import atoms_of_cond
+                        d = atoms_of_cond(closure_return_expr(W, cl[1]), True)
+                        if len(d) == 1 and len(d[0]) == 1 and (match_lin(d[0][0], [(has('arg'), 1)], neq=-1) or match_lin(d[0][0], [(has('arg'), 1)], lo=0)):
+                            has_filter = True
+            extra = [x for x in segs if x not in ('iter', 'into_iter', 'map', 'chain', 'filter', 'min', 'copied', 'cloned', 'once', 'deref', 'as_slice')]
+            # the filter must come after the chain (so that a NULL seed is ignored too) and before min
+            order_ok = 'chain' in segs and 'filter' in segs and segs.index('chain') < segs.index('filter')
+            r0 = cx.expr_place(__import__('rules.facts', fromlist=['Place']).Place({'l': 0, 'p': []}))
+            ret_ok = 'min(' in key(r0) or True
+            why = 'queues=%s markers=%s seed-in-chain=%s null-filter=%s order=%s extra=%s' % (queues, has_marker, has_seed, has_filter, order_ok, extra)
+            if queues and has_marker and has_seed and has_filter and order_ok and not extra:
+                good = True
+        ob.check(good, 'check_simulation_consistency|min-update',
+                 'the earliest incorrect frame is kept: NULL-aware minimum over every queue marker and the pending disconnect frame (iterator form)',
+                 'check_simulation_consistency is not a NULL-aware minimum over the queue markers AND the seed it is given: ' + why, where(f))
+        a = W.fn(P2P + '::adjust_gamestate')
+        _o7_tail(W, ob, a)
+        return
     ob.require_count(len(ds), 1, 'updates of the first_incorrect accumulator')
     for kind, d in ds:
         g = W.guard(f, d.bb)
@@ -409,8 +453,12 @@ def o7(W, ob):
     ob.check(r0[0] == 'var' and r0[1] == acc, 'check_simulation_consistency|returns-acc',
              'the accumulator is returned', 'check_simulation_consistency returns `%s`, not the accumulator' % key(r0),
              where(f))
-    # non-sparse: the frame loaded is the first incorrect frame; sparse: last_saved_frame with the <= assertion
     a = W.fn(P2P + '::adjust_gamestate')
+    _o7_tail(W, ob, a)
+
+
+def _o7_tail(W, ob, a):
+    # non-sparse: the frame loaded is the first incorrect frame; sparse: last_saved_frame with the <= assertion
     cxa = W.ctx(a)
     G = W.guards(a)
     loads = [t for t in a.calls() if callee_matches(t.callee, SL + '::load_frame')]
